@@ -323,9 +323,13 @@ pub fn mention_generated_vftable(rng: &mut Rng, p: &mut Project) -> bool {
                 push_simple_type(rng, p, m, idx, vec![field("table", vty.cptr())]);
             }
             3 => {
-                // By-value field: laid out against the generated struct.
+                // By-value field (sometimes as a base): laid out against the generated struct.
                 let _ = nslots;
-                push_simple_type(rng, p, m, idx, vec![field("table", vty)]);
+                let f = Field {
+                    base: rng.chance(1, 2),
+                    ..field("table", vty)
+                };
+                push_simple_type(rng, p, m, idx, vec![f]);
             }
             _ => {
                 let k = p.modules[m].extern_values.len();
